@@ -54,6 +54,9 @@ func setupPrefix(args ...string) (handler.Handler6, error) {
 	if err != nil {
 		return nil, fmt.Errorf("Invalid pool subnet: %v", err)
 	}
+	if len(prefix.IP) != net.IPv6len {
+		return nil, fmt.Errorf("Invalid pool subnet: %v is not an IPv6 prefix", prefix)
+	}
 
 	allocSize, err := strconv.Atoi(args[1])
 	if err != nil || allocSize > 128 || allocSize < 0 {
